@@ -148,7 +148,7 @@ pub fn c07(index: u64, case_seed: u64, acc: &mut Acc) {
             layout: vec![2, 1, 3],
             values: ValueFn::Table(table),
             faults: vec![],
-            override_write: false,
+            override_write: false, rebuild_signals: false
         },
         layout_opts: crate::pp::Layout::plain(),
         rng_seed: 1,
@@ -472,7 +472,7 @@ pub fn c08_program(trees: &[Expr], var_vals: &[(String, i64)], out_vals: &[(Stri
     Case {
         program: Program { header, items },
         signals: sigs,
-        script: Script { layout, values: ValueFn::Table(vec![row]), faults: vec![], override_write: false },
+        script: Script { layout, values: ValueFn::Table(vec![row]), faults: vec![], override_write: false , rebuild_signals: false},
         layout_opts: crate::pp::Layout::plain(),
         rng_seed: 1,
     }
